@@ -352,6 +352,10 @@ func c07Monitors(dbs *schemas.DB, level int) []dbx.MonSpec {
 			}
 		}
 		add(method, map[string]*ovsdb.MonitorRequest{"N2": {Columns: dbs.Columns("N2"), Select: ovsdb.NewDefaultMonitorSelect()}})
+		// "columns" omitted: every column is monitored (RFC 7047 4.1.5); "select" omitted too: every kind of change
+		add(method, map[string]*ovsdb.MonitorRequest{"R": {Select: ovsdb.NewDefaultMonitorSelect()}, "N1": {Columns: []string{"name"}, Select: ovsdb.NewDefaultMonitorSelect()}})
+		add(method, map[string]*ovsdb.MonitorRequest{"R": {}, "PR": {}})
+		add(method, map[string]*ovsdb.MonitorRequest{}) // no table at all
 		add(method, map[string]*ovsdb.MonitorRequest{"R": {Columns: []string{"name"}, Select: ovsdb.NewMonitorSelect(true, true, true, false)}, "N3": {Columns: dbs.Columns("N3"), Select: ovsdb.NewMonitorSelect(true, false, false, true)}})
 	}
 	return ms
